@@ -136,6 +136,9 @@ func (fr *frame) invoke(st *PState, c *ssa.CallCommon, recv Val, args []Val, k f
 	// a contract stated on the interface method itself (external keepers: bank, account, ...)
 	if ct, ok := ex.CS.ByFunc["("+key+")."+m]; ok {
 		recvT := ex.reify(st, recv, c.Value.Type())
+		if fr.depth == 0 {
+			fr.checkGuards(st, "("+key+")."+m, withRecv(sig, c.Value.Type()), append([]Val{recvT}, args...))
+		}
 		// the signature of an interface method has no receiver: name the arguments by position
 		fr.applyContract(st, ct, withRecv(sig, c.Value.Type()), nil, append([]Val{recvT}, args...), k)
 		return
